@@ -435,3 +435,132 @@ def check_insert_at(ck, tu, tree, cfg, rule="INSERT-EFFECT"):
     else:
         ck.ok(rule, tree.where(fn, "inner cap %d" % cap), "%d (fill, slot) combinations: keys and children conserved, split halves legal" % n)
         ck.states += n
+
+
+# ------------------------------------------------------------------ erase descents: one level at a time
+def check_erase(ck, tu, tree, cfg, rule="ERASE-EFFECT"):
+    for c in cap_configs(tree, cfg, ("erase_one_descend", "erase_iter_descend")):
+        for name in ("erase_one_descend", "erase_iter_descend"):
+            check_erase_at(ck, tu, tree, c, tree.one(name), rule)
+
+
+def check_erase_at(ck, tu, tree, cfg, fn, rule):
+    """the removal of one entry from a leaf (every fill and slot; with and without a parent separator to maintain)
+    and the repair of an inner node after a child reported btree_fixmerge (either of the two candidate
+    children emptied) are executed abstractly; underflow handling is switched off here (UNDERFLOW-LEGAL and
+    PRIMITIVE-EFFECT cover it)"""
+    caps = {"leaf": cfg["leaf"], "inner": cfg["inner"]}
+    PF = 3
+    by_iter = fn.name == "erase_iter_descend"
+    freed = []
+
+    def mk_exec(slot, child_result):
+        def has(ex, e):
+            r = ex.ev(kids(e)[0])
+            f = ex.ev(kids(e)[1])
+            return f[1] in str(r[1]).split("|")
+        stubs = {
+            "find_lower": lambda ex, e: slot,
+            "key_equal": lambda ex, e: True,
+            "is_underflow": lambda ex, e: False,
+            "has": has,
+            "free_node": lambda ex, e: freed.append(ex.ev(kids(e)[1])),
+            fn.name: lambda ex, e: child_result,
+        }
+        return absexec.Exec(fn, caps, tu=tu, stubs=stubs)
+
+    # ---- leaf level
+    cap = caps["leaf"]
+    problem, n = None, 0
+    mn = cap // 2
+    for f in range(1, cap + 1):
+        for s in range(0, f):
+            # 'sep': non-root leaf whose parent holds its separator; 'nosep': non-root leaf on the rightmost path;
+            # 'root': the root leaf (no parent, may hold a single entry)
+            for mode in ("sep", "nosep", "root"):
+                if problem or (mode != "root" and f < max(2, mn)):
+                    continue
+                n += 1
+                try:
+                    L = absexec.Node("L", "leaf", cap, f)
+                    P = absexec.Node("P", "inner", max(caps["inner"], PF), PF, 1) if mode != "root" else None
+                    ps = 1 if mode == "sep" else PF
+                    D0 = live(L, "slotdata")
+                    ex = mk_exec(s, None)
+                    first = {"curr_leaf": L, "curr_slot": s} if by_iter else absexec.keyof(D0[s])
+                    bind(ex, fn, [first, L, None, None, None, None, P, ps if P else 0])
+                    ex.this["root_"] = L if mode == "root" else None
+                    ret = ex.run(kids(fn.body))
+                    fl, key = flags_of(ret)
+                    where = "%s: removing slot %d of a leaf with %d entries (%s)" % (
+                        fn.name, s, f, {"sep": "separator in the parent", "nosep": "rightmost child, no separator", "root": "root leaf"}[mode])
+                    if live(L, "slotdata") != D0[:s] + D0[s + 1:]:
+                        problem = "%s leaves %s; expected the other %d entries in order" % (where, summarize(live(L, "slotdata")), f - 1)
+                    elif "btree_not_found" in fl:
+                        problem = "%s reports btree_not_found" % where
+                    elif s == f - 1 and f >= 2:
+                        want = absexec.keyof(L.slotdata[L.slotuse - 1])
+                        if mode == "sep" and P.slotkey[ps] != want:
+                            problem = "%s: the largest key changed but parent->slotkey[parentslot] is %s, not %s" % (where, P.slotkey[ps], want)
+                        elif mode == "nosep" and not ("btree_update_lastkey" in fl and key == want):
+                            problem = "%s: the largest key changed and the parent has no separator for this child; the caller must receive btree_update_lastkey(%s)" % (where, want)
+                    if not problem and P is not None and [x for i, x in enumerate(P.slotkey[:PF]) if x != ("P", "k", i) and not (mode == "sep" and i == ps and s == f - 1)]:
+                        problem = "%s: a parent separator is rewritten although this leaf's largest key did not change" % where
+                except absexec.Problem as p:
+                    problem = "%s: removing slot %d of a leaf with %d entries: %s" % (fn.name, s, f, p)
+    if problem:
+        ck.violation(rule, fn.qname, "%s:leaf@%d" % (fn.name, cap), "[leaf capacity %d] %s" % (cap, problem), fn.loc)
+    else:
+        ck.ok(rule, tree.where(fn, "leaf cap %d" % cap), "%d (fill, slot, parent) cases: entries conserved, separator maintained or handed up" % n)
+        ck.states += n
+
+    # ---- inner level: a child merged with its neighbour; one of childid[slot], childid[slot + 1] is empty
+    cap = caps["inner"]
+    lcap = caps["leaf"]
+    problem, n = None, 0
+    for f in range(1, cap + 1):
+        for s in range(0, f + 1):
+            for emptied in (s, s + 1):
+                if emptied > f or emptied == 0 or problem:
+                    # the emptied node is always the right one of the merged pair, so it is never child 0
+                    continue
+                if emptied == s and s == 0:
+                    continue
+                n += 1
+                try:
+                    del freed[:]
+                    I = absexec.Node("I", "inner", cap, f, 1)
+                    kidsn = []
+                    for i in range(f + 1):
+                        c = absexec.Node("c%d" % i, "leaf", lcap, 0 if i == emptied else 2)
+                        kidsn.append(c)
+                        I.childid[i] = c
+                    K0, C0 = live(I, "slotkey"), live(I, "childid", 1)
+                    ex = mk_exec(s, ("result", "btree_fixmerge", None))
+                    first = {"curr_leaf": kidsn[s], "curr_slot": 0} if by_iter else ("K",)
+                    if by_iter:
+                        ex.stubs["key"] = lambda ex, e: ("K",) if isinstance(ex.ev(kids(e)[0]), dict) else NotImplemented
+                    bind(ex, fn, [first, I, None, None, None, None, None, 0])
+                    ex.this["root_"] = I
+                    ret = ex.run(kids(fn.body))
+                    where = "%s: child %d of an inner node with %d keys was merged away (descended into child %d)" % (fn.name, emptied, f, s)
+                    wantk = K0[:emptied - 1] + K0[emptied:]
+                    wantc = C0[:emptied] + C0[emptied + 1:]
+                    gotk = live(I, "slotkey")
+                    # on level 1 the separator of the surviving left child is refreshed from the child itself
+                    cmpk = [(k if i != emptied - 1 else wantk[i]) for i, k in enumerate(gotk)] if len(gotk) == len(wantk) else gotk
+                    if freed != [kidsn[emptied]]:
+                        problem = "%s: freed %s; exactly the emptied child must be released" % (where, [getattr(x, "name", x) for x in freed])
+                    elif live(I, "childid", 1) != wantc:
+                        problem = "%s: children become %s" % (where, summarize([getattr(x, "name", x) for x in live(I, "childid", 1)]))
+                    elif cmpk != wantk:
+                        problem = "%s: keys become %s; the separator left of the emptied child must disappear, the others stay" % (where, summarize(gotk))
+                    elif emptied - 1 < I.slotuse and gotk[emptied - 1] not in (wantk[emptied - 1], absexec.keyof(kidsn[emptied - 1].slotdata[1])):
+                        problem = "%s: the separator of the merged child is %s" % (where, gotk[emptied - 1])
+                except absexec.Problem as p:
+                    problem = "%s: child %d of an inner node with %d keys merged away: %s" % (fn.name, emptied, f, p)
+    if problem:
+        ck.violation(rule, fn.qname, "%s:inner@%d" % (fn.name, cap), "[inner capacity %d] %s" % (cap, problem), fn.loc)
+    else:
+        ck.ok(rule, tree.where(fn, "inner cap %d" % cap), "%d (fill, slot, emptied child) cases: emptied child freed, keys and children closed up" % n)
+        ck.states += n
